@@ -494,6 +494,65 @@ theorem synced_fresh (classes : List ClassDef) (nc : Bool) (cfg : Cfg) (ops : Li
     obtain ⟨cd, hcd, hsn⟩ := hi.fresh hglob k s hs
     exact ⟨cd, hcd, hsn, fun a _ => hspec a.2⟩
 
+/-- **Every palette class is a component of its own.** In every reachable state a class that counts as
+registered (it is identified by the class itself — here its index —, not by its name) has every id of its
+`SYNTAX_DEFAULTS` described in the configuration; and registering a class that has defaults makes it count as
+registered.  So no class's defaults are ever skipped because another class (of whatever name) was registered. -/
+theorem registered_class_described (classes : List ClassDef) (nc : Bool) (cfg : Cfg) (ops : List GOp) (g : GWorld)
+    (h : runAll classes nc cfg ops = .ok g) :
+    (∀ (k : Nat) (cd : ClassDef) (dflt : Cfg), Src.cls k ∈ g.w.conf.sources → classes[k]? = some cd →
+      cd.defaults = some dflt → ∀ kv ∈ flatten dflt, (strOf g.w.conf.map kv.1).isSome = true) ∧
+    (∀ (k : Nat) (cd : ClassDef) (dflt : Cfg) (g' : GWorld), classes[k]? = some cd → cd.defaults = some dflt →
+      registerClassG classes (gFuel classes) g k = .ok g' →
+      Src.cls k ∈ g'.w.conf.sources ∧ ∀ kv ∈ flatten dflt, (strOf g'.w.conf.map kv.1).isSome = true) := by
+  unfold runAll at h
+  cases h1 : newConf nc cfg with
+  | error err => simp [h1] at h
+  | ok c =>
+    simp only [h1] at h
+    obtain ⟨hgc, _, _⟩ := newConf_good (classes := classes) h1
+    have hi0 : GInv classes ⟨⟨c, []⟩, false, []⟩ :=
+      ⟨⟨hgc, fun k s hk => by simp [cacheGet] at hk⟩, fun hf => by cases hf⟩
+    have hsrc0 : c.sources = [] := by
+      unfold newConf at h1
+      cases h2 : addNewItems ⟨nc, [], [], []⟩ (flatten cfg) with
+      | error err => simp [h2] at h1
+      | ok c1 =>
+        simp only [h2] at h1
+        rw [addNewItems_sources h1, addNewItems_sources h2]
+    have hs0 : SrcInv classes (⟨⟨c, []⟩, false, []⟩ : GWorld).w.conf := by
+      intro k cd dflt hk
+      simp only [hsrc0] at hk
+      cases hk
+    obtain ⟨hi, _⟩ := runG_inv ops _ g hi0 h
+    have hs := runG_srcInv ops _ g hi0 hs0 h
+    refine ⟨fun k cd dflt hk hcd hdf => hs.described hk hcd hdf, ?_⟩
+    intro k cd dflt g' hcd hdf hr
+    have hin := registerClassG_self hcd hdf hr
+    exact ⟨hin, (registerClassG_srcInv _ g k g' hi.good hs hr).described hin hcd hdf⟩
+
+/-- **A synced palette shows the current state, resolved or not.** While the configuration is the global one,
+an accessor of a synced palette whose syntax id is described but has an incomplete chain is uncoloured —
+whatever the default syntax looks like and whatever the accessor showed while the id was still unknown. -/
+theorem synced_pending_uncoloured (classes : List ClassDef) (nc : Bool) (cfg : Cfg) (ops : List GOp) (g : GWorld)
+    (h : runAll classes nc cfg ops = .ok g) (hglob : g.isGlobal = true) (k : Nat) (s : Snap)
+    (hs : cacheGet g.synced k = some s) (a : Str) (x : Id) (f : Str) (hmem : (a, x, f) ∈ s)
+    (hreg : (descOf g.w.conf.map x).isSome = true) (hpend : ¬ Resolvable (descOf g.w.conf.map) x) : f = [] := by
+  obtain ⟨cd, _, hsn, _⟩ := synced_fresh classes nc cfg ops g h hglob k s hs
+  rw [hsn] at hmem
+  simp only [snapOf, List.mem_map] at hmem
+  obtain ⟨⟨a', x'⟩, _, heq⟩ := hmem
+  simp only [Prod.mk.injEq] at heq
+  obtain ⟨_, hx, hf⟩ := heq
+  subst hx
+  rw [← hf]
+  have sp := (resolve_spec_global classes nc cfg ops g h).1 x'
+  unfold SpecColor at sp
+  simp only [hreg, if_true] at sp
+  rcases sp with ⟨r, hr, _⟩ | ⟨_, hf'⟩
+  · exact absurd ⟨r, hr⟩ hpend
+  · exact hf'
+
 /-! ### the explicit domain on which nothing raises — palettes, global configuration and synced palettes included
 
 `Ctx classes offers safe` (decidable, `ctxb`): parents of a class have smaller indices; every description that
@@ -663,5 +722,20 @@ def reClasses : List ClassDef :=
 example : (match runAll reClasses false (.dict .nil) [.syn 1, .setGlobal] with
     | .ok _ => none
     | .error e => some e) = some .assertion := by decide +kernel
+
+/-- seed m6's shape: the default syntax is RED, the synced accessor `x -> DEMO.X` shows RED while `DEMO.X` is
+unknown, nothing once `DEMO.X` is registered but pending (a batch that resolves nothing), GREEN+bold once
+`DEMO.BASE` arrives -/
+def pendClasses : List ClassDef := [⟨[], none, [(['x'], "DEMO.X".toList)]⟩]
+def pendCfg : Cfg := .dict (.cons "TEXT".toList (.str "RED".toList) .nil)
+example : syncedAfter (runAll pendClasses false pendCfg [.setGlobal, .syn 0]) 0 =
+    some [(['x'], "DEMO.X".toList, Char.ofNat 27 :: "[31m".toList)] := by decide +kernel
+example : syncedAfter (runAll pendClasses false pendCfg
+      [.setGlobal, .syn 0, .op (.add [("DEMO.X".toList, "DEMO.BASE:bold".toList)])]) 0 =
+    some [(['x'], "DEMO.X".toList, [])] := by decide +kernel
+example : syncedAfter (runAll pendClasses false pendCfg
+      [.setGlobal, .syn 0, .op (.add [("DEMO.X".toList, "DEMO.BASE:bold".toList)]),
+       .op (.add [("DEMO.BASE".toList, "GREEN".toList)])]) 0 =
+    some [(['x'], "DEMO.X".toList, Char.ofNat 27 :: "[32;1m".toList)] := by decide +kernel
 
 end C14
